@@ -133,8 +133,8 @@ def gen(ctx, size):
         ctx.add('sc.mul', sc(a), sc(b), expect=E(t), cls='mont-final-sub')
     # unreduced operands (legal via from_bytes_mod_order path 'm' only -> reduced) : operators always get reduced inputs.
     # sums and products
-    ctx.add('sc.sum', '[]', expect=E(0), cls='sum-empty')
-    ctx.add('sc.product', '[]', expect=E(1), cls='sum-empty')
+    ctx.add('sc.sum', '[]', expect=E(0) * 5, cls='sum-empty')
+    ctx.add('sc.product', '[]', expect=E(1) * 5, cls='sum-empty')
     # sums whose integer partial sums carry through all-ones words: x + (2^k - x), word patterns with 1, long runs
     wp = [v for c, v in vals._SWORDS if v < L]
     directed = []
@@ -154,8 +154,8 @@ def gen(ctx, size):
         pr = 1
         for x in xs:
             pr = pr * x % L
-        ctx.add('sc.sum', lst([sc(x) for x in xs]), expect=E(sum(xs)), cls=['sum', 'sum-carry'])
-        ctx.add('sc.product', lst([sc(x) for x in xs]), expect=E(pr), cls=['product'])
+        ctx.add('sc.sum', lst([sc(x) for x in xs]), expect=E(sum(xs)) * 5, cls=['sum', 'sum-carry'])
+        ctx.add('sc.product', lst([sc(x) for x in xs]), expect=E(pr) * 5, cls=['product'])
         if len(xs) == 2:
             ctx.add('sc.add', sc(xs[0]), sc(xs[1]), expect=E(xs[0] + xs[1]), cls='sum-carry')
             ctx.add('sc.sub', sc(xs[0]), sc(xs[1]), expect=E(xs[0] - xs[1]), cls='sum-carry')
@@ -167,8 +167,8 @@ def gen(ctx, size):
         p = 1
         for x in xs:
             p = p * x % L
-        ctx.add('sc.sum', lst([sc(x) for x in xs]), expect=E(s), cls='sum')
-        ctx.add('sc.product', lst([sc(x) for x in xs]), expect=E(p), cls='product')
+        ctx.add('sc.sum', lst([sc(x) for x in xs]), expect=E(s) * 5, cls='sum')
+        ctx.add('sc.product', lst([sc(x) for x in xs]), expect=E(p) * 5, cls='product')
     # inversion
     for c, v in vals._SCORNERS:
         v %= L
